@@ -4,7 +4,8 @@
 From LV Require Import Base.Bytes Base.Sx Model.Obj Model.Writer Model.Save Proofs.SaveProofs
   Spec.StrictReader Proofs.StrictReaderProofs Proofs.SaveStrictProofs
   Proofs.ObjectRtProofs Spec.SaveSpec Proofs.StrictObjectProofs Proofs.StrictFileProofs Proofs.StrictTilingProofs
-  Proofs.StrictLoadProofs Proofs.StrictLoadStreamProofs Proofs.StrictSaveProofs.
+  Proofs.StrictLoadProofs Proofs.StrictLoadStreamProofs Proofs.StrictSaveProofs
+  Model.Incremental Proofs.StrictRevisionProofs Proofs.StrictIncrementalProofs Proofs.StrictIncSaveProofs.
 
 Local Open Scope N_scope.
 
@@ -294,6 +295,74 @@ Theorem C03_strict_example :
     [(1, XUse 15 0); (3, XUse 52 2); (4, XUse 102 0)]).
 Proof. exact strict_example. Qed.
 
+(* ------------------------------------------------------------------------------------------ *)
+(* Part 4: incremental save (c07's Model/Incremental.v inc_save = IncrementalDocument::save_to).  *)
+(* ------------------------------------------------------------------------------------------ *)
+
+(* (4.1) ONE update appended to a saved file.  [inc_update x d s] (= Proofs/StrictIncrementalProofs.inc_dom
+   for the document save works on): the previous bytes are save x d and the loader remembered format x; the
+   new document's objects are in the domain (ascending distinct numbers <= its max_id, generations <= 65535,
+   well-formed, stream Length = |content|, no skipped types), its trailer is well formed and has
+   Prev = the previous startxref (c07: C07_inc_save_prev_link), its version has no EOL byte and its binary
+   mark only bytes >= 128 (they are printed as comment lines), its max_id is at least the previous one
+   (+1 for the stream format: the previous cross-reference stream owns that number).
+   The strict reader then accepts the whole file: it follows Prev to the first section, reads both sections,
+   locates every object of both revisions, counts the previous file verbatim + the filler lines LF "%PDF-1.4"
+   "%<mark>" + the new objects + the new section + the new marker as a gap-free tiling, and per object
+   number the NEWEST revision decides ([omerge]: the objects of the update, then those objects of the first
+   revision whose number the update's section does not list). *)
+Theorem C03_strict_incremental :
+  forall x d s,
+    strict_savable d -> small_file x d -> inc_update x d s ->
+    blen (io_bytes (inc_save s)) < u32_mod ->
+    strict_load (io_bytes (inc_save s)) = SOk (sdoc_inc x (raise_max_id d) s).
+Proof. exact strict_load_inc_save. Qed.
+
+Theorem C03_strict_incremental_fields :
+  forall x d s,
+    strict_savable d -> small_file x d -> inc_update x d s ->
+    blen (io_bytes (inc_save s)) < u32_mod ->
+    let nd := xd_doc (i_new s) in
+    exists r, strict_load (io_bytes (inc_save s)) = SOk r /\
+      firstn (length (so_bytes (save x d))) (io_bytes (inc_save s)) = so_bytes (save x d) /\
+      s_version r = d_version d /\
+      s_revisions r = 2 /\
+      s_stream r = is_stream x /\
+      s_startxref r = io_start (inc_save s) /\
+      (exists seen, s_objects r = omerge seen (norm_objects (d_objects nd)) (norm_objects (d_objects d))) /\
+      dict_get (s_trailer r) K_Prev = Some (OInt (Z.of_N (blen (body_of d)))) /\
+      chain 0 (effective (0, 0) (s_spans r)) (lenN (io_bytes (inc_save s))).
+Proof. exact strict_load_inc_fields. Qed.
+
+(* (4.2) the hypotheses of (4.1) hold for every update made by create_from and then setting the new
+   document's objects (set_object / add_object keep this shape) *)
+Theorem C03_incremental_domain :
+  forall x d prev m,
+    xd_start prev = blen (body_of d) -> xd_type prev = x -> blen (body_of d) < u32_mod ->
+    obj_wf (ODict (d_trailer (xd_doc prev))) ->
+    d_max_id d + (if is_stream x then 1 else 0) <= d_max_id (xd_doc prev) -> d_max_id (xd_doc prev) + 2 < u32_mod ->
+    increasing 0 (obj_numbers m) ->
+    Forall (fun io : oid * obj => fst (fst io) <= d_max_id (xd_doc prev) /\ snd (fst io) <= 65535 /\
+                                  top_wf (snd io) /\ skipped (snd io) = false) m ->
+    inc_dom x d (set_new_objects (create_from (so_bytes (save_core x d)) prev) m).
+Proof. exact inc_dom_create. Qed.
+
+(* the core form: any document of the pipeline's domain as first revision *)
+Theorem C03_strict_incremental_core :
+  forall x d s,
+    strict_savable_core d -> small_file_core x d -> inc_dom x d s ->
+    blen (io_bytes (inc_save s)) < u32_mod ->
+    strict_load (io_bytes (inc_save s)) = SOk (sdoc_inc x d s).
+Proof. exact strict_load_inc. Qed.
+
+(* non-vacuity: object 1 replaced, object 3 replaced under a new generation; two revisions *)
+Theorem C03_incremental_example :
+  inc_update XTable ex_doc3 ex_update /\ blen (io_bytes (inc_save ex_update)) < u32_mod /\
+  s_objects (sdoc_inc XTable (raise_max_id ex_doc3) ex_update) =
+    [((1, 0), ODict [(K_Type, OName (bs "Catalog")); (bs "V", OReal (bs "2.5"))]); ((3, 3), OStr (bs "replaced") false)] /\
+  s_revisions (sdoc_inc XTable (raise_max_id ex_doc3) ex_update) = 2.
+Proof. exact strict_inc_example. Qed.
+
 Print Assumptions C03_accept_sound.
 Print Assumptions C03_chain_covers.
 Print Assumptions C03_chain_disjoint.
@@ -321,3 +390,8 @@ Print Assumptions C03_all_bytes_accounted.
 Print Assumptions C03_strict_core_table.
 Print Assumptions C03_strict_core_stream.
 Print Assumptions C03_strict_example.
+Print Assumptions C03_strict_incremental.
+Print Assumptions C03_strict_incremental_fields.
+Print Assumptions C03_incremental_domain.
+Print Assumptions C03_strict_incremental_core.
+Print Assumptions C03_incremental_example.
